@@ -18,6 +18,7 @@
    fsm.go runHandshakeFSM    established := state reaches StateFinished; reachable only from a last flight
                              (1.2: 4b/5 after the peer's Finished, 5b/6 after sending; 1.3: after activation);
                              prepare() is not reachable from StateFinished
+   state.go generateInternalState  Resume of an exported state: refused when its local epoch is 0 (769b023)
    handshake/conn.go sendACK, post_handshake.go KeyUpdate / NewSessionTicket, connection_id.go RRC:
                              Epoch LocalEpoch() (KeyUpdate: current write generation = LocalEpoch), ShouldEncrypt: true *)
 From Coq Require Import List NArith Bool.
@@ -99,7 +100,8 @@ Inductive op :=
 | OKeyUpdateAck          (* 1.3 commitLocalKeyUpdate: next write generation *)
 | OTicket                (* 1.3 NewSessionTicket *)
 | OAck                   (* 1.3 ACK record *)
-| ORrc.                  (* return routability check message *)
+| ORrc                   (* return routability check message *)
+| OResume (e : N).       (* Resume() of an exported DTLS 1.2 State whose local epoch is e *)
 
 Definition is13 (v : version) : bool := match v with V13 => true | V12 => false end.
 
@@ -142,6 +144,13 @@ Definition step (s : sstate) (o : op) : sstate * list emission :=
       if is13 (s_ver s) && s_est s && negb (s_closed s) then (s, [mkE (KHs 4) (s_epoch s) true]) else (s, [])
   | OAck => if is13 (s_ver s) && negb (s_closed s) then (s, [mkE KAck (s_epoch s) true]) else (s, [])
   | ORrc => if s_est s && negb (s_closed s) then (s, [mkE KRrc (s_epoch s) true]) else (s, [])
+  | OResume e =>
+      (* state.go generateInternalState (769b023): a State captured before the keys were switched on (local epoch
+         0, e.g. the one handed to VerifyConnection) is refused with ErrHandshakeInProgress; DTLS 1.3 states are
+         not serialisable.  Otherwise the connection starts established at the exported epoch
+         (prepareHandshakeStart12: ResumeState, fsm StateFinished) *)
+      if is13 (s_ver s) || (e =? 0) then (s, [])
+      else (mkS (s_ver s) true false e (s_cur s) (s_act s), [])
   end.
 
 (* trace: every emission tagged with "was the handshake established when it was emitted" *)
